@@ -73,6 +73,7 @@ GFA2 = {
     "u6": ("U\tu6\tg1 A g1", ["g1"]),                       # the same gap listed twice
     "ua": ("U\tus\tA", ["sA"]),
     "ub": ("U\tus\tB\txx:i:1", ["sB"]),
+    "uc": ("U\tus\tC\tch:A:c\tjs:J:[1]", ["sC"]),              # tags whose datatype is not the default one of their value
     "uz": ("U\tuz\tA\tcv:i:0", ["sA"]),                     # a group with a falsy tag value
     "oa": ("O\tos\tA+ B+", ["e1"]),
     "ob": ("O\tos\tC+", ["e6", "oa"]),
